@@ -28,6 +28,19 @@ def run : Runner
       | "ok" :: re :: _ => if re == Bytes.tok s then "ok" else "violated:accepted string does not re-serialise to itself"
       | _ => "ok"
     pure { model := xkeyObs (NewKeyFromString X s), prop }
+  -- the raw constructor: String pads a short private scalar to 32 bytes; the string parses back to the same fields
+  | "xnew", [_, ver, key, chain, pfp, depth, cn, priv], impl => do
+    let ver ← bytes? ver; let key ← bytes? key; let chain ← bytes? chain; let pfp ← bytes? pfp
+    let depth ← nat? depth; let cn ← nat? cn; let priv ← bool? priv
+    let k : XKey := ⟨key, chain, depth, pfp, cn, ver, priv⟩
+    let s := String X k
+    let prop := match impl.splitOn " " with
+      | [s', _, _, _, parsed] =>
+        (match parsed.splitOn "," with
+        | "ok" :: re :: _ => if re == s' then "ok" else "violated:reserialise"
+        | _ => "violated:own string rejected")
+      | _ => "violated:shape"
+    pure { model := s!"{Bytes.tok s} {tokB priv} {depth} {Bytes.toNatBE pfp} {xkeyObs (NewKeyFromString X s)}", prop }
   | "xrt", [_, net, seed, path], impl => do
     let ni ← nat? net
     let net ← Address.nets[ni]?
